@@ -45,8 +45,10 @@ CONFIGS = {
     'Mahony-MARG': [(dict(k_P=2.0, k_I=0.1, frequency=10.0), 2000, 0.5), (dict(frequency=100.0), 22000, 0.5)],
     'EKF-IMU': [(dict(frame='NED', frequency=10.0), 300, 0.5), (dict(frame='NED', frequency=100.0, noises=[0.1**2, 0.3**2, 0.5**2]), 300, 0.5)],
     'EKF-IMU-ENU': [(dict(frame='ENU', frequency=10.0), 300, 0.5)],
-    'EKF-MARG': [(dict(frame='NED', magnetic_ref=DIP, frequency=10.0), 1200, 0.5), (dict(frame='NED', magnetic_ref=DIP, frequency=100.0), 9000, 0.5)],
-    'EKF-MARG-ENU': [(dict(frame='ENU', magnetic_ref=DIP, frequency=10.0), 1200, 0.5)],
+    'EKF-MARG': [(dict(frame='NED', magnetic_ref=DIP, frequency=10.0), 1200, 0.5), (dict(frame='NED', magnetic_ref=DIP, frequency=100.0), 9000, 0.5),
+                 (dict(frame='NED', magnetic_ref=np.array([21.0, 1.2, 43.1]), frequency=10.0), 1200, 0.5)],     # a reference given as a field vector in uT (with declination)
+    'EKF-MARG-ENU': [(dict(frame='ENU', magnetic_ref=DIP, frequency=10.0), 1200, 0.5),
+                     (dict(frame='ENU', magnetic_ref=np.array([1.2, 21.0, -43.1]), frequency=10.0), 1200, 0.5)],
     'UKF-IMU': [(dict(frequency=10.0), 2000, 1.0), (dict(frequency=100.0), 2000, 1.0)],
     'AQUA-IMU': [(dict(frequency=10.0, alpha=0.05), 400, 0.5), (dict(frequency=100.0), 1500, 0.5), (dict(frequency=10.0, alpha=0.05, adaptive=True), 400, 0.5)],
     'AQUA-MARG': [(dict(frequency=10.0, alpha=0.05, beta=0.05), 500, 0.5), (dict(frequency=100.0), 2000, 0.5), (dict(frequency=10.0, alpha=0.05, beta=0.05, adaptive=True), 500, 0.5)],
@@ -83,6 +85,8 @@ def _err_deg(r, q, qt, tilt_only, g):
 def run_orbit(r, cfg, H, qt, axis, ang_deg, pattern):
     """-> (Q rows, initial state quaternion in the filter's convention)"""
     g, m = r.refs(DIP)
+    if isinstance(cfg.get('magnetic_ref'), np.ndarray):        # reference given as a vector: the data are images of that direction
+        m = cfg['magnetic_ref'] / np.linalg.norm(cfg['magnetic_ref'])
     Rt = rq.R(qt)
     acc1 = Rt.T @ g * 9.81; mag1 = Rt.T @ m * 45.0
     q_init_att = rq.qmul(qt, rq.axang2q(axis, math.radians(ang_deg)))       # attitude (non-conjugate convention)
